@@ -88,6 +88,10 @@ def make(rng, cls):
         return Polyline2D([P2(p) for p in pts[:max(3, len(pts) - 1)]], interpolated=rng.random() < 0.3)
     if cls == 'Polygon2D': return Polygon2D([P2(p) for p in G.star_polygon(rng)])
     if cls == 'Mesh2D':
+        if rng.random() < 0.25:
+            # a grid-generated mesh: it carries pre-seeded per-face data (one shared cell area, centroids)
+            return Mesh2D.from_grid(P2(G.rpt2(rng)), rng.randint(1, 4), rng.randint(1, 4), G.dy(rng.uniform(0.5, 5)), G.dy(rng.uniform(0.5, 5)),
+                                    rng.random() < 0.5)
         v, f = tri_quad_mesh2d(rng)
         return Mesh2D([P2(p) for p in v], f)
     if cls == 'Vector3D': return V3(G.rvec3(rng))
@@ -100,6 +104,16 @@ def make(rng, cls):
     if cls == 'Polyline3D':
         return Polyline3D([P3(G.rpt3(rng, 20)) for _ in range(rng.randint(3, 8))], interpolated=rng.random() < 0.3)
     if cls == 'Mesh3D':
+        if rng.random() < 0.25:
+            # a grid mesh of a face (pre-seeded areas / normals / centroids), with and without offset and flip
+            for _ in range(5):
+                try:
+                    fc = face3d(rng, nholes=0)
+                    ext = max(fc.max.x - fc.min.x, fc.max.y - fc.min.y, fc.max.z - fc.min.z)
+                    return fc.mesh_grid(G.dy(ext / rng.choice([3.0, 5.0, 8.0])), None, rng.choice([None, G.dy(rng.uniform(0.05, 1))]),
+                                        rng.random() < 0.5, rng.random() < 0.5)
+                except AssertionError:
+                    continue
         v, f = tri_quad_mesh2d(rng)
         frame = G.rational_frame(rng); o = G.rpt3(rng, 20)
         return Mesh3D([P3(G.embed(frame, o, p)) for p in v], f)
